@@ -9,8 +9,8 @@
                 quick    the offset alphabet: every walking-1, walking-0, +-2^k, +-2^k -+ 1, 0, -1, mixed patterns
                          (B T3: x the 14 conditions on a rotating diagonal, all 14 x pass/fail for eight offsets)
                 thorough in addition ALL 2^20 / 2^24 encodings at address 0x10800, version 7, svc (register-file
-                         comparison on every case, memory compared at the end of each block of 2^16 and in full on
-                         every 256th case)
+                         comparison on every case, memory compared at the end of each shard of 2^16 encodings and in
+                         full on every 256th case)
       BX / BLX (register) / BXJ   Rm x target {32-bit alphabet} x target<1:0> {00, 01, 10 (model: UNPREDICTABLE), 11}
       TBB / TBH  table entry {0, 1, 0x7F, 0xFF / 0x7FFF, 0xFFFF} x index x table placement (register base, unaligned,
                  wrapping through 2^32, Rn = PC) x CPSR.E
@@ -168,8 +168,7 @@ def plan(tier):
     if tier != "quick":
         heavy = []
         for cls in WIDE:
-            total = 1 << (24 if cls != "BT3" else 20)
-            heavy += [("x", cls, lo, tier) for lo in range(0, total, BLOCK)]
+            heavy += [("x", cls, j, tier) for j in range(sweep_total(cls) // BLOCK)]
         shards = heavy + shards
         shards.insert(0, shards.pop(len(heavy)))          # the small shard stays first (it is executed twice)
     return {
@@ -506,6 +505,10 @@ class RecDict(dict):
         dict.__setitem__(self, k, v)
 
 
+def sweep_total(cls):
+    return 1 << (20 if cls == "BT3" else 24)
+
+
 def raw_fields(cls, x):
     """Fields for raw encoding number x of the all-encodings sweep."""
     if cls == "BlBlxImmediateT2":
@@ -516,10 +519,13 @@ def raw_fields(cls, x):
     return f, bool(x >> (nbits(cls) - 1))
 
 
-def run_all_encodings(res, agg, cls, lo, tier):
-    """Every encoding x in [lo, lo + BLOCK) of one wide immediate branch at CODE, version 7, svc.  Light path: only the
-    registers are restored and compared per case (the model's own register writes are undone selectively); the memory
-    image is compared at the end of the block, and every 256th case takes the full path."""
+def run_all_encodings(res, agg, cls, j, tier):
+    """Shard j of the all-encodings sweep of one wide immediate branch at CODE, version 7, svc: the encodings
+    x = j + k * (total / BLOCK), k = 0 .. BLOCK-1 (a stride, so that every shard sees both signs and all sizes).
+    Light path: only the registers are restored and compared per case (the model's own register writes are undone
+    selectively); the memory image is compared at the end of the shard, and every 256th case takes the full path."""
+    nsh = sweep_total(cls) // BLOCK
+    lo = j
     ver = 7
     e = env(ver)
     row = BR[cls]
@@ -542,7 +548,8 @@ def run_all_encodings(res, agg, cls, lo, tier):
         setters[nme] = (lambda o: (lambda v: setattr(o, "value", v)))(plan.regs_dict[nme])
     ctx = {"ver": ver, "in_it": False, "last_it": False, "C": (nzcv >> 1) & 1}
     cfg = e.fullcfg
-    for x in range(lo, lo + BLOCK):
+    for k in range(BLOCK):
+        x = j + k * nsh
         f, neg = raw_fields(cls, x)
         if cond:
             f.update(cond)
@@ -550,7 +557,7 @@ def run_all_encodings(res, agg, cls, lo, tier):
             c = (x ^ (x >> 7)) % 14
             f["c"] = c
         word = row.make(**f)
-        if x & 0xFF == 0x5A:
+        if k & 0xFF == 0x5A:
             do_case(res, agg, "x", row, f, word, mode, dict(TAGS), nzcv, 0, CODE, ver, neg=neg, note="full path")
             plan.restore((pre, pre_mem))
             continue
@@ -614,8 +621,8 @@ def run_all_encodings(res, agg, cls, lo, tier):
     # memory must be what it was, apart from the instruction slot
     machine.put_instr(cpu, CODE, row.make(**f0), thumb, row.width)
     if plan.mem() != pre_mem:
-        res.fail("%s memory (all-encodings sweep)" % cls, "memory image changed while sweeping encodings %#x..%#x" % (lo, lo + BLOCK),
-                 {"sect": "x", "cls": cls, "lo": lo})
+        res.fail("%s memory (all-encodings sweep)" % cls, "memory image changed while sweeping encodings %#x + k * %#x" % (j, nsh),
+                 {"sect": "xmem", "cls": cls, "lo": j})
 
 
 # ------------------------------------------------------------------------------------------------- (b) PC advance / read
@@ -888,16 +895,17 @@ def run_shard(arg):
     elif kind == "c":
         run_c(res, agg, arg[1], arg[2])
     elif kind == "x":
-        _, cls, lo, tier = arg
-        run_all_encodings(res, agg, cls, lo, tier)
+        _, cls, j, tier = arg
+        run_all_encodings(res, agg, cls, j, tier)
+        res.sample({"row": cls, "sweep_shard": j, "encodings": BLOCK}, 1)
     agg.flush()
     return res.as_dict()
 
 
 def replay(doc):
     r = doc["replay"]
-    if r.get("sect") == "x":
-        return "all-encodings sweep block %s from %#x: rerun ./check C04 --tier thorough" % (r["cls"], r["lo"])
+    if r.get("sect") == "xmem":
+        return "all-encodings sweep shard %s #%d: rerun ./check C04 --tier thorough" % (r["cls"], r["lo"])
     e = env(r["ver"])
     row = None
     for modname, mod in modules():
